@@ -49,6 +49,9 @@ struct SinkState {
     script: VecDeque<Ans>,
     received: Vec<String>,
     tok: u64,
+    /// what the next `flush` answers (None: Ok)
+    flush_script: Option<Ans>,
+    flushes: usize,
 }
 
 struct ScriptedSink(Arc<Mutex<SinkState>>);
@@ -65,6 +68,18 @@ impl MetricSink for ScriptedSink {
                 Err(tok_err(k, t))
             }
             Ans::RefuseOs(n) => Err(io::Error::from_raw_os_error(n)),
+        }
+    }
+    fn flush(&self) -> io::Result<()> {
+        let mut s = self.0.lock().unwrap();
+        s.flushes += 1;
+        match s.flush_script.take() {
+            Some(Ans::Refuse(k)) => {
+                let t = s.tok;
+                Err(tok_err(k, t))
+            }
+            Some(Ans::RefuseOs(n)) => Err(io::Error::from_raw_os_error(n)),
+            _ => Ok(()),
         }
     }
 }
@@ -196,7 +211,7 @@ fn parse_bops(t: &str) -> Vec<BOp> {
 
 fn finish<'m, 'c, T>(mut b: MetricBuilder<'m, 'c, T>, bops: &'m [BOp], form: &str) -> String
 where
-    T: Metric + From<String>,
+    T: Metric + From<String> + std::fmt::Debug,
 {
     for op in bops {
         b = match op {
@@ -207,6 +222,8 @@ where
             BOp::Rate(r) => b.with_sampling_rate(*r),
         };
     }
+    // formatting a builder must never panic either
+    let _ = format!("{:?}", b);
     if form == "s" {
         b.send();
         "unit".to_string()
@@ -218,7 +235,11 @@ where
 fn res_repr<T: Metric>(r: Result<T, MetricError>) -> String {
     match r {
         Ok(m) => format!("ok:{}", hex(m.as_metric_str().as_bytes())),
-        Err(e) => merr_repr(&e),
+        Err(e) => {
+            // Display / Debug of the error type are public behaviour too (C20)
+            let _ = format!("{} {:?}", e, e);
+            merr_repr(&e)
+        }
     }
 }
 
@@ -336,7 +357,10 @@ fn run_fmt(prefix: &str, tags: &str, cid: &str, calls: &str) -> String {
             s.tok = i as u64 + 1;
         }
         handled.lock().unwrap().clear();
-        let r = catch_unwind(AssertUnwindSafe(|| do_call(&client, entry, form, &key, &val, &bops)));
+        let r = catch_unwind(AssertUnwindSafe(|| {
+            let _ = format!("{:?}", client);
+            do_call(&client, entry, form, &key, &val, &bops)
+        }));
         let res = r.unwrap_or_else(|_| "panic".to_string());
         let em: Vec<String> = sink.lock().unwrap().received.iter().map(|m| hex(m.as_bytes())).collect();
         let hd = handled.lock().unwrap().clone();
@@ -433,6 +457,35 @@ fn run_val(variant: &str, valt: &str) -> String {
     match catch_unwind(AssertUnwindSafe(|| format!("{}", v))) {
         Ok(s) => hex(s.as_bytes()),
         Err(_) => "panic".to_string(),
+    }
+}
+
+/// run one case in the sibling binary built with debug assertions and overflow checks off (profile `nodebug`)
+fn run_in_nodebug(case: &str) -> String {
+    use std::io::Read;
+    let mut exe = std::env::current_exe().unwrap();
+    let name = exe.file_name().unwrap().to_owned();
+    exe.pop();
+    exe.pop();
+    exe.push("nodebug");
+    exe.push(name);
+    let child = std::process::Command::new(exe)
+        .arg("replay")
+        .stdin(std::process::Stdio::piped())
+        .stdout(std::process::Stdio::piped())
+        .stderr(std::process::Stdio::null())
+        .spawn();
+    let mut child = match child {
+        Ok(c) => c,
+        Err(_) => return "nodebug-binary-missing".to_string(),
+    };
+    let _ = child.stdin.take().unwrap().write_all(format!("{}\n", case).as_bytes());
+    let mut out = String::new();
+    let _ = child.stdout.take().unwrap().read_to_string(&mut out);
+    let _ = child.wait();
+    match out.trim().split(" => ").nth(1) {
+        Some(o) => o.to_string(),
+        None => "nodebug-child-crashed".to_string(),
     }
 }
 
@@ -539,6 +592,7 @@ fn run_line(line: &str) -> Option<String> {
         "val" if f.len() == 3 => Some(format!("{} => {}", line, run_val(f[1], f[2]))),
         "raw" if f.len() == 4 => Some(format!("{} => {}", line, run_raw(f[1], f[2], f[3]))),
         "hdl" => Some(format!("hdl => {}", run_hdl())),
+        "fmtn" if f.len() == 5 => Some(format!("{} => {}", line, run_in_nodebug(&format!("fmt {} {} {} {}", f[1], f[2], f[3], f[4])))),
         _ => Some(format!("{} => malformed", line)),
     }
 }
@@ -555,7 +609,7 @@ const HOSTILE: [&str; 10] = ["a:b", "a|b", "#x", "a,b", "@r", "l\nm", "|#", "c:"
 fn gen_str(rng: &mut Rng, hostile: bool) -> String {
     if hostile && rng.chance(50) {
         if rng.below(1000) < 2 {
-            return "k".repeat(rng.range(1000, 40000) as usize);
+            return "k".repeat(*rng.pick(&[1000usize, 8192, 40000, 65507, 70000]));
         }
         return rng.pick(&HOSTILE).to_string();
     }
@@ -753,6 +807,10 @@ fn gen_bops(rng: &mut Rng, mask: u32, hostile: bool) -> String {
     let mut ops: Vec<String> = Vec::new();
     if mask & 1 != 0 {
         ops.push(format!("R{}", f64_tok(if rng.chance(70) { (rng.below(1000) as f64) / 1000.0 } else { gen_f64(rng) })));
+        if rng.chance(15) {
+            // a second with_sampling_rate call: the last one wins
+            ops.push(format!("R{}", f64_tok((rng.below(1000) as f64) / 1000.0)));
+        }
     }
     if mask & 2 != 0 {
         let n = rng.range(1, 4);
@@ -848,6 +906,40 @@ fn sequences(out: &mut impl Write, rng: &mut Rng, n: usize, hostile: bool, count
             calls.push(format!("{}/{}/{}/{}/{}/{}", entry, form, h(&key), val, bops, gen_sink(rng, failpct)));
         }
         emit_fmt(out, &cfg, &calls, count);
+        // every 6th sequence also runs in the binary built without debug assertions
+        if *count % 6 == 0 {
+            let c = calls.join(";");
+            let line = format!("fmtn {} {} {} {}", cfg.0, cfg.1, cfg.2, c);
+            if let Some(l) = run_line(&line) {
+                writeln!(out, "{}", l).unwrap();
+                *count += 1;
+            }
+        }
+    }
+}
+
+/// state kept per client across many calls: 300 quiet sends in a row that all fail, 300 that all succeed, a
+/// mix; and keys / tag values longer than a UDP datagram
+fn long_runs(out: &mut impl Write, rng: &mut Rng, count: &mut u64) {
+    for failpct in [100u64, 0, 30] {
+        let cfg = gen_cfg(rng, false);
+        let mut calls = Vec::new();
+        for i in 0..300 {
+            let entry = *rng.pick(&ENTRIES);
+            let form = if i % 10 == 9 { "t" } else { "s" };
+            let val = gen_val(rng, entry_type(entry));
+            calls.push(format!("{}/{}/{}/{}/{}/{}", entry, form, h("k"), val, "-", gen_sink(rng, failpct)));
+        }
+        emit_fmt(out, &cfg, &calls, count);
+    }
+    for n in [65507usize, 65508, 70000, 200000] {
+        let cfg = gen_cfg(rng, false);
+        let key = "k".repeat(n);
+        let calls = vec![
+            format!("count_i64/t/{}/1/-/a", h(&key)),
+            format!("gauge_u64/s/{}/7/T{}:{}/r3", h("g"), h("t"), h(&key)),
+        ];
+        emit_fmt(out, &cfg, &calls, count);
     }
 }
 
@@ -937,6 +1029,7 @@ fn main() {
     sequences(&mut out, &mut rng, nseq, false, &mut count);
     sequences(&mut out, &mut rng, nseq / 4, true, &mut count);
     std_cases(&mut out, &mut rng, nstd, &mut count);
+    long_runs(&mut out, &mut rng, &mut count);
     for _ in 0..(if tier == "quick" { 3 } else { 200 }) {
         writeln!(out, "hdl => {}", run_hdl()).unwrap();
         count += 1;
